@@ -127,7 +127,6 @@ class Scanner:
         self.frames = []
         self.stack = []                 # functions being inlined (recursion guard)
         self.muted = 0
-        self.return_is_stop = False
         self._caught_class = '.Other'
         self.cur_key = None             # the keyword of the line this pass is for: ('word', K) | ('starts', P) | ('atom', '') | ('else', '')
         self.kw_seen = []               # every keyword the code tests for, in the order the tests are met
@@ -1873,7 +1872,7 @@ class Scanner:
         av = self.ev(st.value, g) if st.value is not None else Const(None)
         self.fr.returns.append(av)
         if self.fr.top:
-            if self.ctx == 'card' or self.return_is_stop:
+            if self.ctx == 'card':
                 self.emit((g[0], [], 0), '.stop')
             else:
                 self.unknown_text('return inside the loop of _parse_cards', g)
@@ -2125,13 +2124,3 @@ class Scanner:
         if isinstance(pat, ast.MatchAs) and pat.pattern is None:
             return True
         return None
-
-
-def new_scanner_for_method(prog, prims, cls, fn, owner, kind, pattr_cls=None, statevar=None, spline_param=1):
-    """a Scanner with one frame for `fn` (method of `cls`), parameter number `spline_param` bound to the token list"""
-    sc = Scanner(prog, prims, 'card' if kind == 'card' else 'parser', pattr_cls, statevar)
-    mod = prog.module(owner.mod)
-    fr = Frame(fn, mod, SelfV(kind, cls), top=True)
-    fr.owner = owner
-    sc.frames.append(fr)
-    return sc, fr
